@@ -208,6 +208,15 @@ def jobs(tier, seed):
         out.append(_j(f'NT-2p-{mode}-manual-dealing', C.nt((4, 4), mode=mode, autos=MANUAL_DEAL), opts=o, dev_bound=6))
         out.append(_j(f'NT-2p-{mode}-all-auto', C.nt((3, 5), mode=mode, autos='ALL'), opts=o))
         out.append(_j(f'NS-2p-{mode}', C.nt((4, 5), mode=mode, antes=1, blinds=(0, 2), autos=SEMI, game='NoLimitShortDeckHoldem'), opts=o))
+    # a street list whose last street deals no board card (a final down card): board cards are still to come on the flop and
+    # turn, not on the last street
+    FINAL_DOWN = C.HOLDEM_LIKE[:3] + [(True, (False,), 0, False, 'POSITION', 2, None)]
+    MID_NO_BOARD = [C.HOLDEM_LIKE[0], (True, (False,), 0, False, 'POSITION', 2, None), C.HOLDEM_LIKE[1], C.HOLDEM_LIKE[2]]
+    for name, streets in (('final-street-without-board', FINAL_DOWN), ('middle-street-without-board', MID_NO_BOARD)):
+        for mode in ('cash', 'tournament'):
+            for stacks in [(4, 4), (3, 6), (6, 9)]:
+                out.append(_j(f'custom-{name}-{mode}', C.custom(stacks, streets, deck='STANDARD', hand_types=('HighCardAny',), antes=0,
+                                                                blinds=(1, 2), mode=mode, autos=SEMI), opts=o, dev_bound=5))
     # hi-lo over several boards / run-outs on a tiny deck: how each board's share is split between hand types and winners is
     # judged by the layered pot reference (refs/pots.py) for every deal
     from itertools import permutations
